@@ -7,6 +7,7 @@ import (
 
 	"github.com/mycoria/mycoria/m"
 	"github.com/mycoria/mycoria/mgr"
+	"github.com/mycoria/mycoria/state"
 )
 
 // VerifSetupLink runs the real link setup on the given connection, wrapped
@@ -33,6 +34,17 @@ func (p *Peering) VerifSetupLink(conn net.Conn, peeringURL *m.PeeringURL, outgoi
 func VerifLinkClosed(link Link) <-chan struct{} {
 	if lb, ok := link.(*LinkBase); ok {
 		return lb.closed
+	}
+	return nil
+}
+
+// VerifLinkEncryption returns the link-layer encryption session of the given
+// link (nil if the link is not based on LinkBase or is not encrypted yet), so
+// that a long-lived link can be simulated by moving its sequence counters.
+// Verification hook: only compiled with the "verif" build tag.
+func VerifLinkEncryption(link Link) *state.EncryptionSession {
+	if lb, ok := link.(*LinkBase); ok {
+		return lb.encSession
 	}
 	return nil
 }
